@@ -107,6 +107,10 @@ Vals(t, d) == IF d = 0 THEN {}
               ELSE LET cs == Ctors(t) IN
                    UNION { { V(t.c, cs[i].n, as) : as \in ValSeqs(cs[i].a, d - 1) } : i \in 1..Len(cs) }
 
+\* the values of the root type are needed for every arm list: computed once (a constant definition)
+ValsTable == [d \in 0..8 |-> Vals(Root, d)]
+ValsOf(t, d) == IF t = Root /\ d \in DOMAIN ValsTable THEN ValsTable[d] ELSE Vals(t, d)
+
 (* ---- source patterns ---------------------------------------------------- *)
 Wild              == [k |-> "wild"]
 Var               == [k |-> "var"]                                   \* an identifier pattern
@@ -154,15 +158,15 @@ WellTyped(p, t) ==
 \* a value of depth <= Slack: an unmatched value exists iff one of depth <= d + Slack exists.
 \* (Slack >= 1: "all values of the type up to the patterns' depth + 1".)
 SemUncovered(arms, t) ==
-  { v \in Vals(t, DepthOf(arms) + Slack) : \A i \in 1..Len(arms) : ~Matches(arms[i], v) }
+  { v \in ValsOf(t, DepthOf(arms) + Slack) : \A i \in 1..Len(arms) : ~Matches(arms[i], v) }
 SemExhaustive(arms, t) == SemUncovered(arms, t) = {}
 \* an if-let pattern is useless (irrefutable) iff it matches every value
-SemIrrefutable(p, t) == \A v \in Vals(t, Depth(p) + Slack) : Matches(p, v)
+SemIrrefutable(p, t) == \A v \in ValsOf(t, Depth(p) + Slack) : Matches(p, v)
 \* The reported counterexample c is a pattern; it stands for all values it matches.  If one of them
 \* only had to be unmatched, `_` would be a correct report for every inexhaustive match and the
 \* property would say nothing: every value it denotes must be unmatched, and it must denote one.
 CexSound(arms, c, t) ==
-  LET vs == Vals(t, Max({DepthOf(arms), Depth(c)}) + Slack) IN
+  LET vs == ValsOf(t, Max({DepthOf(arms), Depth(c)}) + Slack) IN
   /\ WellTyped(c, t)
   /\ \E v \in vs : Matches(c, v)
   /\ \A v \in vs : Matches(c, v) => \A i \in 1..Len(arms) : ~Matches(arms[i], v)
@@ -358,7 +362,7 @@ LastUsefulAgrees ==
   Len(arms) >= 1 =>
     LET prev == SubSeq(arms, 1, Len(arms) - 1) last == arms[Len(arms)] IN
     AlgUsefulAfter(prev, last, Root) =
-      (\E v \in Vals(Root, DepthOf(arms) + Slack) : Matches(last, v) /\ \A i \in 1..Len(prev) : ~Matches(prev[i], v))
+      (\E v \in ValsOf(Root, DepthOf(arms) + Slack) : Matches(last, v) /\ \A i \in 1..Len(prev) : ~Matches(prev[i], v))
 \* the pools are what the generator of the harness may render without provoking other diagnostics
 PoolWellTyped == \A i \in 1..Len(arms) : WellTyped(arms[i], Root)
 
